@@ -141,6 +141,8 @@ def check_frames(ctx, rep, tier):
 
 
 def check_bitserial(ctx, rep, tier):
+    from .rules_event import check_clone_faithful
+    check_clone_faithful(ctx, rep, ('Ps2Decoder',))
     """C06: symbolic-register induction (DESIGN 3.3 / 4 C06)."""
     prog = ctx.prog
     f_new = find_method(ctx, PS2, 'new')
